@@ -189,6 +189,7 @@ type sqlRun struct {
 	n   int
 	txn *access.Transaction // explicit transaction in progress, or nil (autocommit)
 	dead    bool
+	conflict bool // the next statement runs against rows another open transaction has locked
 	deadEmitted bool
 	aborted bool // the explicit transaction was aborted by one of its statements
 }
@@ -235,6 +236,9 @@ func (s *sqlRun) stmt(ev map[string]interface{}, sql string) eng.Result {
 		r = s.e.Exec(sql)
 	}
 	ev["res"] = r.Res
+	if s.conflict {
+		ev["conflict"] = true
+	}
 	ev["pb"], ev["pa"] = pb, s.e.Pins()
 	ev["sql"] = shortSQL(sql)
 	if strings.HasPrefix(r.Res, "panic") {
@@ -599,4 +603,12 @@ func (t *tableDef) hasBtreeVarchar() bool {
 		}
 	}
 	return false
+}
+
+// ctxName lets a check reuse a workload under its own property context (VERIF_CTX)
+func ctxName(def string) string {
+	if v := os.Getenv("VERIF_CTX"); v != "" {
+		return v
+	}
+	return def
 }
